@@ -5,6 +5,7 @@ import (
 	"go/token"
 	"go/types"
 	"sort"
+	"strconv"
 	"strings"
 
 	"golang.org/x/tools/go/packages"
@@ -227,6 +228,7 @@ func c17ReportsError(info *types.Info, cc *ast.CaseClause) bool {
 
 func runC17(r *fw.Run) {
 	defer c17SourceIsReadOnly(r)
+	defer c17TemplatePlaceholdersNotInsideStrings(r)
 	defer c17PlanClosuresAreStateless(r)
 	defer func() {
 		// the converter imports default values into the SDL document through astimport: a value kind without an arm (the default
@@ -1974,4 +1976,57 @@ func c17PlanClosuresAreStateless(r *fw.Run) {
 		})
 	}
 	r.Expect("C17-R13", "per-request closures built by the planner", n, 1)
+}
+
+// c17TemplatePlaceholdersNotInsideStrings (R14): the introspection data source builds its fetch input from a hand-written
+// JSON template; `{{ .arguments.name }}` is replaced at run time by the value of the `name` argument of `__type`. The
+// planner renders argument placeholders with the *plain* renderer unless a field configuration says otherwise (C17-R8
+// decides that the keys agree) — plain means the string content as is. A placeholder that sits inside a JSON string literal
+// of the template (`"type_name":"{{ … }}"`) therefore splices client-controlled text into the JSON unescaped: a name with
+// a quote or a backslash makes the input unparsable (fetch error instead of `__type: null`), and
+// `x","request_type":1,"y":"` overrides another member of the request. The rule: in the template constants of the
+// introspection data source no placeholder is directly enclosed in double quotes.
+func c17TemplatePlaceholdersNotInsideStrings(r *fw.Run) {
+	p := r.Prog
+	r.Rule("C17-R14", "no placeholder ({{ … }}) of the introspection data source's input template sits inside a JSON string literal of the template: argument values are rendered unescaped by the plain renderer")
+	n := 0
+	for _, f := range p.Pkg("introspds").Syntax {
+		ast.Inspect(f, func(nd ast.Node) bool {
+			lit, ok := nd.(*ast.BasicLit)
+			if !ok || lit.Kind.String() != "STRING" {
+				return true
+			}
+			tv, okT := p.Pkg("introspds").TypesInfo.Types[lit]
+			if !okT || tv.Value == nil {
+				return true
+			}
+			text := strings.Trim(tv.Value.ExactString(), "")
+			if uq, err := strconv.Unquote(text); err == nil {
+				text = uq
+			}
+			idx := 0
+			for {
+				i := strings.Index(text[idx:], "{{")
+				if i < 0 {
+					break
+				}
+				at := idx + i
+				j := strings.Index(text[at:], "}}")
+				if j < 0 {
+					break
+				}
+				end := at + j + 2
+				n++
+				before := strings.TrimRight(text[:at], " ")
+				after := strings.TrimLeft(text[end:], " ")
+				inside := strings.HasSuffix(before, `"`) && strings.HasPrefix(after, `"`)
+				name := strings.TrimSpace(text[at+2 : end-2])
+				r.Check(!inside, "C17-R14", "input-template/placeholder-not-inside-a-string:"+name, p.Pos(lit.Pos()), "the placeholder "+name+" of the introspection input template is not enclosed in a JSON string literal",
+					"the argument value is spliced into a JSON string of the fetch input without escaping: `__type(name: \"No\\\"pe\")` gives a fetch error instead of `__type: null`, and a name like `x\",\"request_type\":1,\"y\":\"` overrides request_type — the data source answers a __type field with the whole __schema object")
+				idx = end
+			}
+			return true
+		})
+	}
+	r.Expect("C17-R14", "placeholders in the introspection data source's template constants", n, 1)
 }
